@@ -1,7 +1,10 @@
 SPECIFICATION Spec
 CONSTANTS
-  StopRule = "minusDelay"
+  StopRule = "plusDelay"
   ChunkRule = "code"
+  ReduceRule = "loop"
+  KeyRule = "fallback"
+  AssignRule = "strict"
   SeedSpace <- SeedsQuick
   SizeSpace <- SizeTriplesQ
 INVARIANT PairsOk
